@@ -11,6 +11,17 @@ S3_OPS = ['head_object', 'get_object', 'put_object', 'copy_object',
           'abort_multipart_upload']
 
 
+def weighted(*pairs):
+    """one_of with weights ((weight, strategy), ...).  Hypothesis flattens
+    and de-duplicates one_of(a, a, b), so repetition does not weight."""
+    total = sum(w for w, _ in pairs)
+    table = []
+    for w, strat in pairs:
+        table += [strat] * w
+
+    return st.integers(0, total - 1).flatmap(lambda k: table[k])
+
+
 def schedules(max_len=120):
     walk = st.builds(
         lambda c: {'mode': 'walk', 'choices': c},
